@@ -131,9 +131,9 @@ pub fn run(cfg: &Cfg) -> i32 {
     let thorough = cfg.thorough();
     let ns: Vec<usize> = if thorough { vec![0, 1, 2, 3, 5] } else { vec![0, 2] };
     let kinds: Vec<FaultKind> = if thorough {
-        vec![FaultKind::RpcError, FaultKind::WarningThenOk, FaultKind::NoPositive, FaultKind::NotXml, FaultKind::Truncated, FaultKind::WrongMessageId, FaultKind::CloseBefore, FaultKind::CloseAfter, FaultKind::StallThenClose, FaultKind::DelayedRpcError, FaultKind::ErrorThenOk, FaultKind::ErrorWarningThenOk, FaultKind::ForeignError, FaultKind::ErrorReplyThenSecondPositiveReply]
+        vec![FaultKind::RpcError, FaultKind::WarningThenOk, FaultKind::NoPositive, FaultKind::NotXml, FaultKind::Truncated, FaultKind::WrongMessageId, FaultKind::CloseBefore, FaultKind::CloseAfter, FaultKind::StallThenClose, FaultKind::DelayedRpcError, FaultKind::ErrorThenOk, FaultKind::ErrorWarningThenOk, FaultKind::ForeignError, FaultKind::ErrorReplyThenSecondPositiveReply, FaultKind::ErrorRootThenPositiveRootSameId, FaultKind::ErrorRootThenPositiveRootOtherId]
     } else {
-        vec![FaultKind::RpcError, FaultKind::NoPositive, FaultKind::WrongMessageId, FaultKind::CloseBefore, FaultKind::DelayedRpcError, FaultKind::ErrorThenOk, FaultKind::ErrorWarningThenOk, FaultKind::ForeignError, FaultKind::ErrorReplyThenSecondPositiveReply]
+        vec![FaultKind::RpcError, FaultKind::NoPositive, FaultKind::WrongMessageId, FaultKind::CloseBefore, FaultKind::DelayedRpcError, FaultKind::ErrorThenOk, FaultKind::ErrorWarningThenOk, FaultKind::ForeignError, FaultKind::ErrorReplyThenSecondPositiveReply, FaultKind::ErrorRootThenPositiveRootSameId, FaultKind::ErrorRootThenPositiveRootOtherId]
     };
     let mut cases: Vec<Case> = Vec::new();
     for &n in &ns {
@@ -146,7 +146,7 @@ pub fn run(cfg: &Cfg) -> i32 {
         for (op, occ) in positions {
             for kind in &kinds {
                 let applicable = match kind {
-                    FaultKind::ErrorThenOk | FaultKind::ErrorWarningThenOk | FaultKind::DelayedRpcError => op == "load-configuration",
+                    FaultKind::ErrorThenOk | FaultKind::ErrorWarningThenOk | FaultKind::DelayedRpcError | FaultKind::ErrorRootThenPositiveRootSameId | FaultKind::ErrorRootThenPositiveRootOtherId => op == "load-configuration",
                     FaultKind::ErrorReplyThenSecondPositiveReply => op == "load-configuration" && occ >= 1,
                     FaultKind::HoldOk => false,
                     FaultKind::RpcError | FaultKind::WarningThenOk | FaultKind::NoPositive | FaultKind::WrongMessageId | FaultKind::CloseAfter | FaultKind::ForeignError => op != "hello",
